@@ -358,9 +358,15 @@ func RunHistoryCase(cs map[string]any, id int, seed int64) Result {
 	if cs["shared"] == true {
 		shared = &verify.Options{}
 	}
+	rotDir, err := os.MkdirTemp("", "verif-rot-hist-")
+	if err != nil {
+		panic(err)
+	}
+	defer os.RemoveAll(rotDir)
 	for i, st := range cs["hist"].([]any) {
 		step := st.(map[string]any)
 		c := get(step["wid"].(string))
+		c.RotDir = rotDir
 		if c.Unrealizable != "" {
 			res.Skip = c.Unrealizable
 			return Result{ID: id, Skip: c.Unrealizable}
@@ -449,16 +455,29 @@ func runStaleClockCase(cs map[string]any, id int, seed int64) Result {
 // rootOfTrustOptions builds the verification options the way a configuration-driven caller does: verify.RootOfTrustToOptions
 // over bundle files and / or inline PEM listing exactly the certificates of the world's pool.
 func rootOfTrustOptions(c *gen.Concrete, via string, o map[string]any) (*verify.Options, error) {
-	dir, err := os.MkdirTemp("", "verif-rot-")
-	if err != nil {
-		panic(err)
+	dir := c.RotDir
+	if dir == "" {
+		d, err := os.MkdirTemp("", "verif-rot-")
+		if err != nil {
+			panic(err)
+		}
+		dir = d
+		defer os.RemoveAll(dir)
 	}
-	defer os.RemoveAll(dir)
 	rot := &ccpb.RootOfTrust{GetCollateral: o["gc"] == true, CheckCrl: o["cr"] == true}
 	file := func(i int, content []byte) string {
 		p := filepath.Join(dir, fmt.Sprintf("bundle%d.pem", i))
+		if c.RotDir != "" { // replaced in place: same path, same length (PEM ignores what surrounds its blocks), same modification time
+			for len(content) < 4096 {
+				content = append(content, '\n')
+			}
+		}
 		if err := os.WriteFile(p, content, 0o600); err != nil {
 			panic(err)
+		}
+		if c.RotDir != "" {
+			at := time.Unix(1700000000, 0)
+			os.Chtimes(p, at, at)
 		}
 		return p
 	}
